@@ -574,6 +574,28 @@ func (m *Mail) Exec(a core.Action) bool {
 				for _, o := range objs {
 					srcUIDs = append(srcUIDs, src.Members[src.Index(o)].UID)
 				}
+				// RFC 3501/4315 leave the order in which the copies are made (and get their
+				// UIDs) to the server; COPYUID states it.  R follows that statement, and the
+				// content comparison below holds the server to it.
+				if order := copyUIDSource(r, a.K); len(order) == len(srcUIDs) {
+					pos := map[uint32]int{}
+					for i, u := range order {
+						pos[u] = i
+					}
+					perm := len(pos) == len(order)
+					for _, u := range srcUIDs {
+						if _, ok := pos[u]; !ok {
+							perm = false
+						}
+					}
+					if perm {
+						o2, u2 := make([]*model.Obj, len(objs)), make([]uint32, len(objs))
+						for i, u := range srcUIDs {
+							o2[pos[u]], u2[pos[u]] = objs[i], u
+						}
+						objs, srcUIDs = o2, u2
+					}
+				}
 				for _, o := range objs {
 					if removeSrc && src != db {
 						src.Remove(o)
@@ -642,14 +664,34 @@ func applyFlagOp(old []string, op int, flags []string) []string {
 	return out
 }
 
+// seqsObjs: the messages a set selects, each once, in the order the set names them first.
 func seqsObjs(b *model.Mailbox, seqs []int) []*model.Obj {
 	var out []*model.Obj
+	seen := map[int]bool{}
 	for _, q := range seqs {
-		if q >= 1 && q <= len(b.Members) {
+		if q >= 1 && q <= len(b.Members) && !seen[q] {
+			seen[q] = true
 			out = append(out, b.Members[q-1].Obj)
 		}
 	}
 	return out
+}
+
+// copyUIDSource returns the source UIDs of the COPYUID code in the order stated.
+func copyUIDSource(r *wire.Result, kind string) []uint32 {
+	code := r.Code
+	if kind == "move" {
+		for _, l := range r.Lines {
+			if l.Status == "OK" && strings.HasPrefix(l.Code, "COPYUID") {
+				code = l.Code
+			}
+		}
+	}
+	f := strings.Fields(code)
+	if len(f) != 4 || f[0] != "COPYUID" {
+		return nil
+	}
+	return expandSet(f[2])
 }
 
 func (m *Mail) checkCopyUID(r *wire.Result, kind string, srcUIDs, uids []uint32) {
